@@ -45,7 +45,7 @@ func reader_scan_PredicateObjectList(r *Decoder, ectx evaluationContext, r0 curs
 			return readerStack{}, grammar.R_predicateObjectList.Err(r.newOffsetError(err, r0.AsDecodedRunes(), cursorio.DecodedRunes{}))
 		}
 
-		if !unicode.IsSpace(r1.Rune) {
+		if r1.Rune == ':' || r1.Rune == '.' || internal.IsRune_PN_CHARS(r1.Rune) {
 			r.buf.BacktrackRunes(r1)
 
 			token, err := r.producePrefixedName(r0)
@@ -67,7 +67,12 @@ func reader_scan_PredicateObjectList(r *Decoder, ectx evaluationContext, r0 curs
 			ectx.CurPredicate = rdf.IRI(rdfiri.Type_Property)
 			ectx.CurPredicateLocation = r.commitForTextOffsetRange(r0.AsDecodedRunes())
 
-			r.commit(r1.AsDecodedRunes())
+			// the keyword needs no white space before '<', '[', '(', '"' and the like
+			if unicode.IsSpace(r1.Rune) {
+				r.commit(r1.AsDecodedRunes())
+			} else {
+				r.buf.BacktrackRunes(r1)
+			}
 		}
 
 		r.pushState(ectx, reader_scan_ObjectList_Continue)
